@@ -6,6 +6,12 @@ PID = 'C01'
 MONITORS = ('C01',)
 
 
+# quick: C01 keeps the job-private path (counters of Creating jobs); reordered job_started reports and the staging-cleaner
+# window are exercised by C04 and C06 on the same family; thorough runs everything
+OPTS = {'quick': {'job_private': True, 'job_private_nested_only': True, 'late_started': False, 'sweep_windows': False},
+        'thorough': {'job_private': True}}
+
+
 def setups(tier):
     s = [
         ('chain+child_of_1', 'u1_chain', 'u2_child_of_1', []),
@@ -23,6 +29,8 @@ def setups(tier):
     s.append(('chain_abs+child_of_1', 'u1_chain_abs', 'u2_child_of_1', []))
     # update 1 has only a job group, so update 2's job ids start at 1
     s.append(('groups_only_u1+job', 'u1_groups_only', 'u2_parentless_job_in_g1', []))
+    # one update stages jobs of the same group in two pools
+    s.append(('chain+two_pools', 'u1_chain', 'u2_two_pools', []))
     # update 1 (one job) has already run to completion, so the batch is complete; update 2 adds only a job group
     s.append(('done1+empty_groups', 'u1_single', 'u2_empty_groups_only',
               [('sched', 0, 'i1'), ('complete', 1, 'A001xx', 'i1', 'Success', 10, 20)]))
@@ -42,7 +50,7 @@ def check(tier, seed, procs):
 
     phase = txpairs.run_phase(tier, procs, ('C01',))
     depth = 5 if tier == 'quick' else 8
-    res = bf.run(MONITORS, setups(tier), tier, depth, procs, time_budget=55 if tier == 'quick' else 1500)
+    res = bf.run(MONITORS, setups(tier), tier, depth, procs, opts=OPTS[tier], time_budget=55 if tier == 'quick' else 1500)
     cov = bf.coverage(res, f'1 batch, update 1 committed (2-3 jobs, 1-2 nested groups), update 2 submitted step by step '
                            f'(1-2 jobs, 0-1 groups, 1-2 bunches; one setup: batch already complete + group-only update), 2 pool instances, depth {depth}')
     out = {'coverage': cov, 'violations': res.violations, 'assumptions': bf.ASSUME,
@@ -57,5 +65,5 @@ def replay(obj):
         return txpairs.replay(obj)
     from vf import dbmc
 
-    v = dbmc.replay_history(bf.Family, (sorted(MONITORS), setups('thorough'), 'thorough', None), obj['history'])
+    v = dbmc.replay_history(bf.Family, (sorted(MONITORS), setups('thorough'), 'thorough', OPTS['thorough']), obj['history'])
     return (not v), (v[0][1] if v else 'no violation')
